@@ -106,6 +106,14 @@ func c09Directed() []c09Entry {
 			w.Srv.Mutate(simapi.Pods, world.NS, "web-3", func(o runtime.Object) { o.(*corev1.Pod).Labels["app"] = "other" })
 			w.Srv.Mutate(simapi.Pods, world.NS, "web-1", func(o runtime.Object) { delete(o.(*corev1.Pod).Labels, asv1.StatefulSetPodNameLabel) })
 		}),
+		mk("release of a pod that stopped matching, beyond the range (nothing else fails if the release does)", world.SetOpts{Replicas: 2, Policy: asv1.ParallelPodManagement, HistLimit: 2}, func(r *world.Runner) {
+			convergeQuietly(r)
+			w := r.W
+			set := w.GetSet("web")
+			p := healthyPod(set, 5, set.Status.UpdateRevision, 0, nil)
+			p.Labels["app"] = "other"
+			w.Srv.Seed(simapi.Pods, p)
+		}),
 		mk("migrated revisions: label sync and adoption of marker orphans", world.SetOpts{Replicas: 2, Policy: asv1.OrderedReadyPodManagement, HistLimit: 5}, func(r *world.Runner) {
 			convergeQuietly(r)
 			w := r.W
